@@ -81,6 +81,7 @@ type interp struct {
 	inInterferer    bool
 	interferePoints int
 	inInit          int
+	fixedClock      *int64
 	allowInit       *ssa.Package
 
 	// misc model state
